@@ -8,9 +8,9 @@ from . import c05
 PROPERTY = 'C18'
 BUDGET = {'quick': {'seconds': 1500, 'xreplay_every': 50}, 'thorough': {'seconds': 6000, 'xreplay_every': 1000}}
 NONTRIVIAL = {'quick': ['stream-parsed', 'disconnect', 'abort', 'api-while-closing', 'timer-while-closing', 'api-after-loss', 'second-connection',
-                        'disconnect-refused']}
+                        'disconnect-refused', 'resumed-with-queue']}
 
-CLOSING_STEPS = ('publish', 'subscribe', 'unsubscribe', 'connect', 'disconnect', 'advance')
+CLOSING_STEPS = ('publish', 'subscribe', 'unsubscribe', 'connect', 'disconnect', 'advance', 'setWindowSize')
 AFTER_STEPS = ('publish', 'subscribe', 'unsubscribe', 'disconnect', 'advance')
 
 
@@ -72,7 +72,11 @@ def check_stream(eng, w, c, ver, disconnect_steps, connect_step):
 def h_closing(eng, params):
     import mqtt.error as merr
     profile = params['profile']
-    w, c, req = scen.busy_prefix(eng, profile, 'connected', keepalive=params['keepalive'], jitter_pool=fixed_jitter(), window=4)
+    w, c, req = scen.busy_prefix(eng, profile, 'connected', keepalive=params['keepalive'], jitter_pool=fixed_jitter(), window=2)
+    if profile != 'subscriber':
+        # the window (2) is full: this one is held back
+        w.begin_step('publish-held-back')
+        w.api(c, 'publish', 'held', scen.topic(eng, 0x68), mkbytearray(eng, [8]), qos=1)
     disconnect_steps = set()
     how = params['how']
     if how == 'disconnect':
@@ -98,6 +102,8 @@ def h_closing(eng, params):
             w.api(c, 'unsubscribe', 'x', scen.topic(eng, 0x78))
         elif kind == 'connect':
             scen.connect(w, c)
+        elif kind == 'setWindowSize':
+            w.call(c, 'setWindowSize', eng.int('window', 1, 16))
         elif kind == 'disconnect':
             r, e = w.call(c, 'disconnect')
             if e is None:
@@ -208,7 +214,37 @@ def h_general(eng, params):
     return flow.finish()
 
 
-HARNESSES = {'closing': h_closing, 'general': h_general}
+def h_resume(eng, params):
+    """persistent session with a full window and messages of every QoS queued behind it, resumed on a new connection"""
+    flow = Flow(eng, params['profile'], clean=False, ver=params['ver'])
+    w = flow.w
+    flow.open()
+    c1 = flow.c
+    flow.set_window(1)
+    flow.publish(qos=2)
+    for j in range(params['queued']):
+        flow.publish()                      # QoS symbolic 0..2: held back behind the full window
+    for i in range(params['k']):
+        kind = eng.choose(('PUBREC', 'PUBCOMP', 'advance', 'nothing'), 'step')
+        if kind == 'advance':
+            flow.advance(hi=30)
+        elif kind != 'nothing':
+            c05.deliver_ack(flow, kind)
+    flow.lose()
+    flow.open(connack=False, clean=False)
+    if eng.choose(2, 'window-on-new-protocol'):
+        flow.set_window()
+    flow.connack(1)
+    eng.count('resumed-with-queue')
+    flow.advance(40)
+    flow.lose()
+    flow.advance(200)
+    for c in w.conns:
+        check_stream(eng, w, c, params['ver'], set(), c.connect_step)
+    return flow.finish()
+
+
+HARNESSES = {'closing': h_closing, 'general': h_general, 'resume': h_resume}
 
 
 def shards(tier):
@@ -224,6 +260,9 @@ def shards(tier):
             for first in GEN_STEPS:
                 out.append(('general', {'profile': profile, 'ver': ver, 'keepalive': 5 if ver == 31 else 0, 'k': 5 if T else 3, 'first': first,
                                         'before': ver == 311, 'stray_will_args': first in ('advance', 'disconnect')}))
+    for profile in ('publisher', 'pubsubs'):
+        for ver in (31, 311):
+            out.append(('resume', {'profile': profile, 'ver': ver, 'queued': 2, 'k': 2 if T else 1}))
     return out
 
 
@@ -231,7 +270,7 @@ META = {
     'rule': '(closing) connected client with one request of every kind pending, then disconnect() or an abort-provoking packet, k free steps from {publish(QoS symbolic), '
             'subscribe, unsubscribe, connect, disconnect, advance(dt symbolic)} before the loss is reported, the loss, k2 steps after it, 2000 s; (general) histories of k '
             'steps over requests, acknowledgements, inbound traffic, time, disconnect, loss + new connection; every transport stream is parsed by the strict reference decoder',
-    'bounds': {'quick': 'closing: k=3 after disconnect(), k=2 after an abort, k2=1, keepalive 0/5, 3 profiles; general: k=3, both protocol versions', 'thorough': 'closing: k=4, k2=2; general: k=5'},
+    'bounds': {'quick': 'resume: persistent session, window 1, one QoS 2 publish in flight and 2 publishes of symbolic QoS queued, 1 step, loss, rebuilt protocol (optional setWindowSize), CONNACK, 40 s; closing: one more publish held back by a full window, steps include setWindowSize(symbolic); k=3 after disconnect(), k=2 after an abort, k2=1, keepalive 0/5, 3 profiles; general: k=3, both protocol versions', 'thorough': 'closing: k=4, k2=2; general: k=5'},
     'stubs': ['fake transport with asynchronous loss', 'twisted task.Clock', 'jitter: fixed sequence'],
     'outside': ['connect() called on a protocol object after its connection was reported lost (a Twisted protocol instance serves one connection)',
                 'writes between abortConnection() and the loss report (the statement restricts only what follows DISCONNECT and what follows the loss)'],
